@@ -5,6 +5,7 @@ var Registry = map[string]func(tier, replay string) int{
 	"C01": RunC01,
 	"C02": RunC02,
 	"C03": RunC03,
+	"C04": RunC04,
 	"C06": RunC06,
 	"C07": RunC07,
 	"C08": RunC08,
